@@ -10,7 +10,7 @@
 From Coq Require Import ZArith List Bool.
 From Model Require Import PyBase Graph PeriodicTable Valence Kekule Thiele.
 From Gen Require Import Elements.
-From Proofs Require Import KekuleProofs KekuleExt KekuleValence KekuleThiele.
+From Proofs Require Import KekuleProofs KekuleExt KekuleValence KekuleThiele KekuleSound.
 Import ListNotations.
 Open Scope Z_scope.
 
@@ -200,13 +200,13 @@ Print Assumptions C05_form_sound_examples.
 
 (* What IS proved about every form the search yields (for all components, sets, buffer sizes, fuel): one entry per skeleton
    bond, every entry joins two atoms adjacent in `rings`, has order 1 or 2, and no order-2 entry touches a double_bonded
-   atom.  MISSING for kekule_component_sound: the entries are pairwise different bonds; every plain ring atom gets
+   atom (without any hypothesis on the arguments).  MISSING here (see C05_kekule_component_sound_partial below): the entries are pairwise different bonds; every plain ring atom gets
    exactly one and every pyrrole-type atom at most one order-2 entry. *)
-Theorem C05_kekule_component_sound_partial : forall rings db db_start pyr bs maxy fuel ys r c,
+Theorem C05_kekule_component_bonds : forall rings db db_start pyr bs maxy fuel ys r c,
   kekule_component rings db db_start pyr bs maxy fuel = Ok (ys, r, c) ->
   Forall (ok_form2 rings db (Z.of_nat (fold_right (fun nl s => (List.length (snd nl) + s)%nat) O rings) / 2)) ys.
-Proof. exact kekule_component_sound_partial. Qed.
-Print Assumptions C05_kekule_component_sound_partial.
+Proof. exact KekuleExt.kekule_component_sound_partial. Qed.
+Print Assumptions C05_kekule_component_bonds.
 
 Theorem C05_kekule_component_entries : forall rings db db_start pyr bs maxy fuel ys r c y a p o,
   kekule_component rings db db_start pyr bs maxy fuel = Ok (ys, r, c) -> In y ys -> In (a, p, o) y ->
@@ -257,3 +257,38 @@ Theorem C05_thiele_model_preserves : forall g sssr rings2 fok o,
   m_atoms (o_mol o) = m_atoms g /\ graph_of (o_mol o) = graph_of g /\ (o_result o = false -> o_mol o = g).
 Proof. exact thiele_model_preserves. Qed.
 Print Assumptions C05_thiele_model_preserves.
+
+(* ---- SECOND EXTENSION ROUND: soundness of the search.  For well-formed arguments (rings_wf2: simple symmetric connected
+   skeleton with two or three neighbours per atom, positive atom numbers, double_bonded and pyrroles disjoint subsets of it,
+   db_start in double_bonded) in which EVERY PYRROLE-TYPE ATOM HAS TWO SKELETON NEIGHBOURS, every form the search yields - for
+   any buffer size, cut and fuel - is form_sound: every skeleton bond exactly once, orders 1 / 2, double_bonded atoms no
+   double bond, plain ring atoms exactly one, pyrrole-type atoms at most one.  (Lineage invariant over the stack and its fork
+   snapshots, Proofs.KekuleSound.)  `_partial`: the hypothesis on pyrrole-type atoms is not needed by the code after ad376fe
+   (checked on every form of 20000 generated components with three-neighbour pyrrole atoms), but such an atom can be reached a
+   second time through a pending closure item, which this invariant does not cover. *)
+Theorem C05_kekule_component_sound_partial : forall rings db db_start pyr bs maxy fuel ys r c,
+  rings_wf2 rings db pyr = true -> (db <> [] -> In db_start db) ->
+  kekule_component rings db db_start pyr bs maxy fuel = Ok (ys, r, c) ->
+  forallb (form_sound rings db pyr) ys = true.
+Proof. exact KekuleSound.kekule_component_sound_partial. Qed.
+Print Assumptions C05_kekule_component_sound_partial.
+
+(* the hypotheses are satisfiable and the conclusion is not vacuous: benzene, the pyrrole skeleton (N-H in double_bonded),
+   pyridine-type N in pyrroles, naphthalene with a pyridine-type atom *)
+Theorem C05_kekule_component_sound_examples :
+  rings_wf2 (ring_adj 6) [] [] = true /\ rings_wf2 (ring_adj 5) [1] [] = true /\ rings_wf2 (ring_adj 6) [] [1; 4] = true /\
+  rings_wf2 [(1, [2; 10]); (2, [1; 3]); (3, [2; 4]); (4, [3; 5]); (5, [4; 6; 10]); (6, [5; 7]); (7, [6; 8]); (8, [7; 9]); (9, [8; 10]); (10, [9; 1; 5])] [] [2] = true /\
+  match kekule_component [(1, [2; 10]); (2, [1; 3]); (3, [2; 4]); (4, [3; 5]); (5, [4; 6; 10]); (6, [5; 7]); (7, [6; 8]); (8, [7; 9]); (9, [8; 10]); (10, [9; 1; 5])] [] 0 [2] 0 10 1000 with
+  | Ok (ys, _, _) => (3 <=? List.length ys)%nat | Err _ => false end = true.
+Proof. exact kekule_component_sound_examples. Qed.
+Print Assumptions C05_kekule_component_sound_examples.
+
+(* ---- thiele() with the default fix_tautomers=True, algorithm-level model thiele_model_t (ring loop with acceptors / donors, the
+   depth-first hydrogen-moving search, quinone stage, pruning, writing; tied by correspondence, the iteration orders of the
+   skeleton sets are an input): atoms keep element / isotope / charge / radical state and the connectivity is unchanged
+   whatever the set orders, the ring search and the freak queries are.  (Hydrogen counts of two ring nitrogens may change:
+   the recorded finding thiele-moves-H.) *)
+Theorem C05_thiele_model_t_preserves : forall g sssr ords rings2 fok o,
+  thiele_model_t g sssr ords rings2 fok = Ok o -> core_of (o_mol o) = core_of g /\ graph_of (o_mol o) = graph_of g.
+Proof. exact thiele_model_t_preserves. Qed.
+Print Assumptions C05_thiele_model_t_preserves.
